@@ -55,11 +55,16 @@ pub struct Permissioner { x: u8 }
 impl Permissioner {
     pub uninterp spec fn rows(&self) -> Map<u32, Option<Permissions>>;
     // [C09.tables.init.rows] + [C09.tables.init.others] (unit permissioner)
+    // LINKED (as a simulation: `rows()` is ghost bookkeeping coupled to the real tables, not a function of them): units/permissioner/lemmas.rs,
+    // harness [C09.link.users_restart.init_permissions_for_user]. The `requires` was ADDED by the link: the real function only adds rows, on a
+    // user that already has rows the old stream rows survive and the tables are no longer the denormalisation of `rows()`.
     #[verifier::external_body]
     pub fn init_permissions_for_user(&mut self, user_id: u32, permissions: Option<Permissions>)
+        requires !old(self).rows().contains_key(user_id),
         ensures final(self).rows() == old(self).rows().insert(user_id, permissions),
     { unimplemented!() }
     // [C09.tables.update.rows] + [C09.tables.update.others] (unit permissioner)
+    // LINKED (simulation, see above): units/permissioner/lemmas.rs, harness [C09.link.users_restart.update_permissions_for_user]
     #[verifier::external_body]
     pub fn update_permissions_for_user(&mut self, user_id: u32, permissions: Option<Permissions>)
         ensures final(self).rows() == old(self).rows().insert(user_id, permissions),
@@ -118,6 +123,41 @@ pub fn std_values_collect_vec<'a, K, V>(m: &'a HashMap<K, V>) -> (r: Vec<&'a V>)
 { unimplemented!() }
 
 // ---- vocabulary ------------------------------------------------------------------------------------------------------------------
+// (link pass 2) the users handed to Permissioner::init carry pairwise distinct ids. Opaque, revealed only where it is used: the two-variable
+// quantifier inside the loop invariants of `init` sent the solver into a matching loop.
+#[verifier::opaque]
+pub open spec fn ids_distinct(us: Seq<&User>) -> bool {
+    forall|i: int, j: int| 0 <= i < j < us.len() ==> (#[trigger] us[i]).id != (#[trigger] us[j]).id
+}
+// none of the users from position `from` on has rows yet (opaque for the same reason)
+#[verifier::opaque]
+pub open spec fn none_registered(rows: Map<u32, Option<Permissions>>, us: Seq<&User>, from: int) -> bool {
+    forall|i: int| from <= i < us.len() ==> !rows.contains_key((#[trigger] us[i]).id)
+}
+// proved (nothing assumed): one step of Permissioner::init, and the call-site facts of System::load_users
+pub proof fn lemma_none_registered_step(rows: Map<u32, Option<Permissions>>, us: Seq<&User>, k: int, p: Option<Permissions>)
+    ensures (0 <= k < us.len() && none_registered(rows, us, k) && ids_distinct(us))
+        ==> (!rows.contains_key(us[k].id) && none_registered(rows.insert(us[k].id, p), us, k + 1)),
+{
+    reveal(none_registered); reveal(ids_distinct);
+}
+pub proof fn lemma_values_of_fresh_map(users: Map<u32, User>, ks: Seq<u32>, rows: Map<u32, Option<Permissions>>)
+    ensures (keys_exactly(users, ks) && (forall|k: u32| #[trigger] users.contains_key(k) ==> users[k].id == k) && (forall|k: u32| !rows.contains_key(k)))
+        ==> forall|v: Seq<&User>| #![trigger ids_distinct(v)] #![trigger none_registered(rows, v, 0)]
+                (v.len() == ks.len() && (forall|i: int| 0 <= i < v.len() ==> *#[trigger] v[i] == users[ks[i]]))
+                ==> ids_distinct(v) && none_registered(rows, v, 0),
+{
+    reveal(none_registered); reveal(ids_distinct);
+    if keys_exactly(users, ks) && (forall|k: u32| #[trigger] users.contains_key(k) ==> users[k].id == k) && (forall|k: u32| !rows.contains_key(k)) {
+        assert forall|v: Seq<&User>| #![trigger ids_distinct(v)] #![trigger none_registered(rows, v, 0)]
+            (v.len() == ks.len() && (forall|i: int| 0 <= i < v.len() ==> *#[trigger] v[i] == users[ks[i]]))
+            implies ids_distinct(v) && none_registered(rows, v, 0) by {
+            assert forall|i: int, j: int| 0 <= i < j < v.len() implies (#[trigger] v[i]).id != (#[trigger] v[j]).id by {
+                assert(users.contains_key(ks[i]) && users.contains_key(ks[j]) && ks[i] != ks[j]);
+            }
+        }
+    }
+}
 impl PersonalAccessToken {
     pub open spec fn raw_spec(user_id: u32, name: &Name, token_hash: &Name, expiry_at: Option<IggyTimestamp>) -> PersonalAccessToken {
         PersonalAccessToken { user_id: user_id, name: *name, token: *token_hash, expiry_at: expiry_at }
